@@ -25,7 +25,8 @@ def _messages():
     from .alphabet import session_messages
     m = dict(session_messages(full=True, holds=(90, 3)))
     m['@send_update'] = ('POST', '/v1/peer/<ip>/send/update',
-                         {'attr': {'1': 0, '2': [[2, [65001]]], '3': '10.0.0.1', '16': ['route-target:65001:1']}, 'nlri': ['10.9.0.0/16']})
+                         {'attr': {'1': 0, '2': [[2, [65001]]], '3': '10.0.0.1', '16': ['route-target:65001:1', 'route-target:70000:1', 'route-origin:65001:1']},
+                          'nlri': ['10.9.0.0/16']})
     m['@send_update2'] = ('POST', '/v1/peer/<ip>/send/update',
                           {'attr': {'1': 0, '2': [[2, [65001]]], '3': '10.0.0.1', '16': ['route-target:65001:2']}, 'nlri': ['10.9.0.0/16']})
     m['@stat'] = ('GET', '/v1/peer/<ip>/statistic', None)
@@ -47,8 +48,14 @@ SCENARIO = [
     ('TICK', 0), ('CONN_OK', 0), ('RX', 0, 'OPEN_OK_ID2'), ('RX', 0, 'KA'), ('RX', 0, 'UPD'), ('REST', 'stat'), ('REST', 'state'),
     # session 4: the peer comes back without any capability (2-octet AS numbers): what sessions 1-3 negotiated is gone
     ('PEER_CLOSE', 0), ('TICK', 0), ('CONN_OK', 0), ('RX', 0, 'OPEN_NOOPT'), ('RX', 0, 'KA'), ('RX', 0, 'UPD_AS2'), ('REST', 'state'),
+    # session 5: operator stop and start; the new session is up BEFORE the close of the old connection completes (connectionLost of
+    # the old protocol object arrives last): nothing of the new session may be touched by it
+    ('OP_STOP',), ('OP_START',), ('CONN_OK', 1), ('RX', 1, 'OPEN_OK'), ('RX', 1, 'KA'), ('CLOSE_DONE', 0),
+    ('RX', 0, 'UPD'), ('REST', 'send_update'), ('REST', 'state'), ('REST', 'stat'),
 ]
+LATE_CLOSE = 38                    # index of the CLOSE_DONE of session 5
 SESSION_STARTS = (1, 10, 19)       # index of the TICK that starts each session
+SESSION4_UPD = 31                  # index of the 2-octet-AS UPDATE of session 4
 
 
 def _trace(cfg):
@@ -59,10 +66,10 @@ def _trace(cfg):
         try:
             obs = w.step(ev, m)
         except W.ReplayDivergence as e:
-            out.append((ev, 'NOT ENABLED: %s' % e, w.reported_state(), None))
+            out.append((ev, 'NOT ENABLED: %s' % e, w.reported_state(), None, None))
             break
         raw = tuple(bytes(e[2]).hex() for e in obs if e[0] == 'write')
-        out.append((ev, W.abstract_obs(obs, w), w.reported_state(), raw))
+        out.append((ev, W.abstract_obs(obs, w), w.reported_state(), raw, (w.fsm.hold_time, round(w.fsm.keep_alive_time, 6))))
     return out
 
 
@@ -95,7 +102,20 @@ def _run(cfg):
                 v.append(('session-independence|the same handshake is handled differently in a later session of the same agent',
                           {'step_in_session': k, 'event': x[0], 'session_2': repr(x[1:3])[:500], 'session_3': repr(y[1:3])[:500]}))
                 break
-        last_upd = a[len(SCENARIO) - 2]
+        assert SCENARIO[LATE_CLOSE] == ('CLOSE_DONE', 0)
+        before, after = a[LATE_CLOSE - 1], a[LATE_CLOSE]
+        if after[2] != 'ESTABLISHED' or any(e[0] in ('write', 'lose', 'connect') for e in after[1]) or after[4] != before[4]:
+            v.append(('session-independence|the late close of the previous connection disturbs the session that is already up',
+                      {'state_before': before[2], 'state_after': after[2], 'observed': repr(after[1])[:400],
+                       'hold_keepalive_before': before[4], 'hold_keepalive_after': after[4]}))
+        upd5, send5, send1 = a[LATE_CLOSE + 1], a[LATE_CLOSE + 2], a[6]
+        if tuple(e[:2] for e in upd5[1]) != tuple(e[:2] for e in a[s2 + 4][1]) or upd5[2] != 'ESTABLISHED':
+            v.append(('session-independence|after the late close of the previous connection the same UPDATE is handled differently',
+                      {'session_2': repr(a[s2 + 4][1:3])[:400], 'session_5': repr(upd5[1:3])[:400]}))
+        if (send5[1], send5[3]) != (send1[1], send1[3]):
+            v.append(('session-independence|after the late close of the previous connection the same REST send is answered / encoded differently',
+                      {'session_1': repr(send1[1:])[:500], 'session_5': repr(send5[1:])[:500]}))
+        last_upd = a[SESSION4_UPD]
         if not any(e[0] == 'cb' and e[1] == 'update_received' for e in last_upd[1]):
             v.append(('session-independence|a peer that returns without the capabilities of the earlier sessions is still treated as having them',
                       {'event': last_upd[0], 'observed': repr(last_upd[1])[:400]}))
